@@ -116,6 +116,27 @@ pub proof fn lemma_trimmed_start(s: Seq<u8>, p: int)
     }
 }
 
+/// i is the index of the first ':' of s
+pub open spec fn first_colon(s: Seq<u8>, i: int) -> bool {
+    0 <= i < s.len() && s[i] == 0x3a && forall|j: int| 0 <= j < i ==> #[trigger] s[j] != 0x3a
+}
+/// Namespaces in XML: QName ::= (Prefix ':')? LocalPart -- the part after the first ':' (or everything)
+pub open spec fn spec_local_name(s: Seq<u8>) -> Seq<u8> {
+    if exists|i: int| first_colon(s, i) { let i = choose|i: int| first_colon(s, i); s.subrange(i + 1, s.len() as int) } else { s }
+}
+pub proof fn lemma_local_name(s: Seq<u8>)
+    ensures
+        forall|i: int| first_colon(s, i) ==> spec_local_name(s) == s.subrange(i + 1, s.len() as int),
+        (forall|j: int| 0 <= j < s.len() ==> #[trigger] s[j] != 0x3a) ==> spec_local_name(s) == s,
+{
+    assert forall|i: int| first_colon(s, i) implies spec_local_name(s) == s.subrange(i + 1, s.len() as int) by {
+        let k = choose|k: int| first_colon(s, k);
+        if k < i { assert(s[k] != 0x3a); } else if i < k { assert(s[i] != 0x3a); }
+    }
+    if forall|j: int| 0 <= j < s.len() ==> #[trigger] s[j] != 0x3a {
+        if exists|i: int| first_colon(s, i) { let i = choose|i: int| first_colon(s, i); assert(s[i] != 0x3a); }
+    }
+}
 /// s starts with p
 pub open spec fn sw(s: Seq<u8>, p: Seq<u8>) -> bool { s.len() >= p.len() && forall|i: int| 0 <= i < p.len() ==> s[i] == p[i] }
 /// ASCII-case-insensitive "starts with" (HTML5 allows `<!doctype`)
